@@ -112,7 +112,7 @@ def buddy_disjoint_full : Prop :=
 
 /-- Proof: the tree invariant `FInv` of `MgpuProofs/C10BuddyFull*.lean` (free ⇒ exists ∧ not split; split ⇒ exists;
 merge bit ⇔ split ∧ exactly one child free; every tracked page lies in a used block whose tracker counts it) is
-kept by `allocMulti`, `addSingle`/`freeBlock` and hence by every history (`finv_runLive`); two existing
+kept by `allocMultiPos`, `addSingle`/`freeBlock` and hence by every history (`finv_runLive`); two existing
 non-split blocks never overlap (`leaf_overlap`). No overflow hypothesis is needed: `usub` is only applied to
 addresses `≥ base`. (`runLive` stops at the first illegal `add` with the state before it, so the conclusion holds
 for that state as well: `runLive_safe`.) -/
